@@ -46,6 +46,38 @@ def run_workers(ctx, jobs, seeds, mode="stage", base_mode=None):
     return outs
 
 
+def decorate(rng, spec):
+    """Half of the studies get their scripts from a scheduler adapter: the steps are given resource
+    requests and a $(LAUNCHER) token so that batch headers and launcher lines (built from dicts and
+    sets of keys) are part of what has to be repeatable.  Changes `spec` in place; returns the
+    batch block."""
+    which = rng.choice(["local", "local", "slurm", "slurm", "lsf", "flux"])
+    if which == "local":
+        return {"type": "local"}
+    batch = {"type": which, "host": "h", "bank": "b", "queue": "q"}
+    if rng.random() < 0.4:
+        batch["nodes"] = 2
+    for s in spec["study"]:
+        run = s["run"]
+        for key in ("nodes", "procs", "walltime"):
+            if isinstance(run.get(key), str):
+                run.pop(key)          # a parameter token as a count is C15's subject
+        if rng.random() < 0.8:
+            run["procs"] = rng.choice([1, 2, 4, 8])
+            if rng.random() < 0.6:
+                run["nodes"] = rng.choice([1, 2])
+            for key, values in (("cores per task", [1, 2, 4]), ("gpus", [1, 2]), ("walltime", ["00:10:00", "30"]),
+                                ("exclusive", [True]), ("reservation", ["r1"]), ("qos", ["standby"]),
+                                ("tasks per rs", [1, 2]), ("rs per node", [1, 2]), ("bind", ["rs"])):
+                if rng.random() < 0.4:
+                    run[key] = rng.choice(values)
+            if rng.random() < 0.7:
+                run["cmd"] = "$(LAUNCHER) " + run["cmd"]
+            if run.get("restart") and rng.random() < 0.7:
+                run["restart"] = "$(LAUNCHER)[%dp] " % rng.choice([1, 2]) + run["restart"]
+    return batch
+
+
 def run(ctx, escalated=False):
     quick = ctx.tier == "quick" and not escalated
     n = 120 if quick else 2500
@@ -59,9 +91,14 @@ def run(ctx, escalated=False):
         c.data["id"] = "j%d" % k
         spec = json.loads(json.dumps(c.data["spec"]))
         spec["env"]["variables"].pop("OUTPUT_PATH", None)
+        batch = decorate(ctx.rng, spec)
+        c.data["script_batch"] = batch
+        if batch["type"] != "local":
+            c.data["staged_spec"] = spec
+        ctx.count("scripts:" + batch["type"])
         jobs.append({"id": c.data["id"], "spec": spec, "hash_ws": c.data["hash_ws"],
                      "rlimit": c.data["rlimit"], "scripts": True, "submit_order": True,
-                     "throttle": ctx.rng.choice([0, 0, 1, 2, 3])})
+                     "script_batch": batch, "throttle": ctx.rng.choice([0, 0, 1, 2, 3])})
         cases.append(c)
     outs = run_workers(ctx, jobs, seeds)
     byid = [{item["id"]: item for item in o} for o in outs]
@@ -81,6 +118,10 @@ def run(ctx, escalated=False):
             if c.monitor:
                 break
         ctx.count("instances", len(ref.get("order", [])))
+        if isinstance(ref.get("scripts"), str):
+            ctx.count("scripts-refused:" + ref["scripts"].split(":")[1])
+        elif ref.get("scripts"):
+            ctx.count("scripts-written", len(ref["scripts"]))
     ctx.cov["processes"] = len(seeds)
     ctx.cov["hash_seeds"] = [str(s) for s in seeds]
     diffs = compare(cases)
